@@ -284,3 +284,198 @@ def full_key_cover(prog, static_path):
     if not ib.dominates(inner[1], outer[0]):
         return False, "inner loop can be skipped in an outer iteration"
     return True, "keys = %s x %s, all inserted" % tuple(ranges)
+
+
+STATEMENTS["some-unless-empty"] = ("if every constructor of a private struct stores Some(..) in field F or an empty Vec in field W, then for any value of "
+                                   "the type, W non-empty implies F is Some (fields are private and no method mutates them)")
+
+
+def field_accessors(prog, fn):
+    """{variant or None: (struct adt, field index)} if `fn(&self)` returns a field of self, directly or through an enum
+    wrapper whose every arm forwards to such an accessor of its payload; else None"""
+    from .guards import accessor_field
+    b = prog.bodies.get(fn)
+    if b is None or b.argc != 1:
+        return None
+    sty = b.locals[1]["ty"]
+    while sty.get("k") == "ref":
+        sty = sty["t"]
+    if sty.get("k") != "adt":
+        return None
+    fi = accessor_field(prog, fn)
+    if fi is not None:
+        return {None: (sty["p"], fi)}
+    out = {}
+    for r in closure_ret(prog, b):
+        r = strip(r)
+        if r[0] != "call" or r[1] not in prog.bodies or len(r[2]) != 1:
+            return None
+        a = strip(r[2][0])
+        if not (a[0] == "field" and a[2] == 0 and strip(a[1])[0] == "downcast" and strip(strip(a[1])[1]) == ("param", 1)):
+            return None
+        inner = field_accessors(prog, r[1])
+        if not inner or list(inner) != [None]:
+            return None
+        out[strip(a[1])[2]] = inner[None]
+    a_ = prog.adts.get(sty["p"])
+    if not out or a_ is None or a_["kind"] != "enum":
+        return None
+    names = set(v if isinstance(v, str) else v.get("name") for v in a_["variants"])
+    if set(out) != names:
+        return None
+    return out
+
+
+def struct_case_invariant(prog, adt, opt_field, vec_field):
+    """every construction site of `adt` stores Some(..) in opt_field or an empty Vec in vec_field; no &mut self method
+    writes either field"""
+    from . import invariants
+    if not invariants.is_private_struct(prog, adt):
+        return False, "%s has public fields" % adt
+    ss = invariants.sites(prog, adt)
+    if not ss:
+        return False, "no construction site of %s" % adt
+    n_some = n_empty = 0
+    for p, bi, s in ss:
+        body = prog.bodies[p]
+        an = analysis(prog, body)
+        o = unmut(an.terms.operand(s["rv"]["ops"][opt_field]))
+        w = unmut(an.terms.operand(s["rv"]["ops"][vec_field]))
+        if o[0] == "aggr" and o[1].endswith("Option::Some"):
+            n_some += 1
+            continue
+        if w[0] == "call" and short(w[1]) in ("Vec::<T>::new",) and not w[2]:
+            n_empty += 1
+            continue
+        return False, "constructor in %s stores neither Some(..) in field %d nor an empty Vec in field %d" % (short(p), opt_field, vec_field)
+    # no in-place mutation of the two fields: no statement assigns through a projection of a value of this type
+    for p, body in prog.bodies.items():
+        if "::tests::" in p:
+            continue
+        for bi, si, st in body.stmts():
+            if st["k"] != "assign":
+                continue
+            lhs = st["p"]
+            if st["rv"]["k"] == "ref" and st["rv"].get("m"):
+                # a mutable borrow of one of the two fields counts as a write
+                lhs = st["rv"]["p"]
+            if not lhs["pr"]:
+                continue
+            ty = body.locals[lhs["l"]]["ty"]
+            while ty.get("k") == "ref":
+                ty = ty["t"]
+            if ty.get("k") == "adt" and ty["p"] == adt and any(pr.get("k") == "field" and pr.get("i") in (opt_field, vec_field) for pr in lhs["pr"]):
+                return False, "%s assigns field of %s in place" % (short(p), adt)
+    return True, "%d constructor(s) with Some, %d with an empty Vec" % (n_some, n_empty)
+
+
+def some_unless_empty(ctx, o):
+    """unwrap of F(X) under a dominating `!G(X).is_empty()`"""
+    sy, prog = ctx.sy, ctx.prog
+    a = unmut(ctx.an.terms.operand(o.call["args"][0]))
+    if a[0] != "call" or len(a[2]) != 1:
+        return False, ""
+    F = a[1] if a[1] in prog.bodies else sy.call_sig(a)
+    fa = field_accessors(prog, F)
+    if not fa:
+        return False, ""
+    xn = sy.arg_name(a[2][0])
+    ge, ne, other = ctx.facts_at(o.bb)
+    for at in other:
+        if at[0] != "pred" or at[2] is not False:
+            continue
+        m = re.match(r"^(?:<impl \[T\]>|Vec::<T, A>)::is_empty\((alpha_g_[\w:]+)\((.*)\)\)$", at[1])
+        if not m or m.group(2) != xn:
+            continue
+        ga = field_accessors(prog, m.group(1))
+        if not ga or set(ga) != set(fa):
+            continue
+        notes = []
+        for v in fa:
+            if fa[v][0] != ga[v][0]:
+                break
+            ok, note = struct_case_invariant(prog, fa[v][0], fa[v][1], ga[v][1])
+            if not ok:
+                return False, note
+            notes.append("%s: %s" % (fa[v][0].split("::")[-1], note))
+        else:
+            return True, "; ".join(notes)
+    return False, ""
+
+
+STATEMENTS["member-lookup"] = ("if c is an element obtained by iterating the private field S of X, then S.iter().position(|x| *x == c) is Some "
+                               "(derived, hence reflexive, PartialEq); a lookup F(X, c) that returns None only when that position is None returns Some")
+
+
+def forwarders2(prog, fn):
+    """{variant or None: inner fn} for a two-argument method that is either the real lookup or an enum wrapper whose arms
+    forward (payload, arg2) to it"""
+    b = prog.bodies.get(fn)
+    if b is None or b.argc != 2:
+        return None
+    rets = [strip(r) for r in closure_ret(prog, b)]
+    if rets and all(r[0] == "call" and r[1] in prog.bodies and len(r[2]) == 2 for r in rets):
+        out = {}
+        for r in rets:
+            a = strip(r[2][0])
+            if not (a[0] == "field" and a[2] == 0 and strip(a[1])[0] == "downcast" and strip(strip(a[1])[1]) == ("param", 1)):
+                return {None: fn}
+            if strip(r[2][1]) != ("param", 2):
+                return None
+            out[strip(a[1])[2]] = r[1]
+        return out
+    return {None: fn}
+
+
+def member_lookup(ctx, o):
+    from . import accept
+    sy, prog = ctx.sy, ctx.prog
+    a = unmut(ctx.an.terms.operand(o.call["args"][0]))
+    if a[0] != "call" or len(a[2]) != 2:
+        return False, ""
+    F = a[1] if a[1] in prog.bodies else sy.call_sig(a)
+    fw = forwarders2(prog, F)
+    if not fw:
+        return False, ""
+    X, c = unmut(a[2][0]), unmut(a[2][1])
+    # c is the element of a for-loop over G(X)
+    if not (c[0] == "field" and c[2] == 0 and unmut(c[1])[0] == "downcast" and unmut(c[1])[2] == "Some"):
+        return False, ""
+    nx = unmut(unmut(c[1])[1])
+    if not (nx[0] == "call" and short(nx[1]) == "Iterator::next"):
+        return False, ""
+    it = unmut(nx[2][0])
+    while it[0] == "call" and short(it[1]) in ("IntoIterator::into_iter", "<impl [T]>::iter", "Iterator::copied", "Iterator::cloned") and it[2]:
+        it = unmut(it[2][0])
+    if it[0] != "call" or len(it[2]) != 1 or unmut(it[2][0]) != X:
+        return False, "the looked-up key is not an element of a field of the same receiver"
+    G = it[1] if it[1] in prog.bodies else sy.call_sig(it)
+    ga = field_accessors(prog, G)
+    if not ga or set(ga) != set(fw):
+        return False, "%s is not a field accessor matching %s" % (short(G), short(F))
+    notes = []
+    for v, inner in fw.items():
+        adt, fi = ga[v]
+        rows = accept.ret_table(prog, inner)
+        n_none = 0
+        for atoms, val in rows:
+            if val.startswith("None"):
+                n_none += 1
+                pat = r"^Iterator::position\(mut\(<impl \[T\]>::iter\(arg1\.%d\)\),\|x\| <(alpha_g_[\w:]+) as std::cmp::PartialEq>::eq\(x,arg2\)\) is None$" % fi
+                ms = [re.match(pat, s_) for s_ in atoms]
+                ms = [m for m in ms if m]
+                if not ms:
+                    return False, "%s can return None although the key is in field %d" % (short(inner), fi)
+                eqb = prog.bodies.get("<%s as std::cmp::PartialEq>::eq" % ms[0].group(1))
+                if eqb is None or not eqb.j["span"].get("exp"):
+                    return False, "PartialEq of %s is not derived" % ms[0].group(1)
+            elif not val.startswith("Some"):
+                return False, "%s returns something other than Some/None literals" % short(inner)
+        sb = prog.bodies[inner]
+        sty = sb.locals[1]["ty"]
+        while sty.get("k") == "ref":
+            sty = sty["t"]
+        if sty.get("p") != adt:
+            return False, "receiver type mismatch"
+        notes.append("%s returns None only if position(field %d == key) is None (%d None path(s))" % (short(inner), fi, n_none))
+    return True, "; ".join(notes)
